@@ -45,13 +45,13 @@ def run_one(prog, entry, decisions, cfg):
         out['msg'] = str(p)[:300]
     except Unsupported as e:
         out['outcome'] = 'unsupported'
-        out['msg'] = str(e)[:600]
+        out['msg'] = str(e)[:600] + ' | MIR stack: ' + ' < '.join(ex.errstack[:6])
     except RecursionError:
         out['outcome'] = 'unsupported'
         out['msg'] = 'python recursion limit'
     except Exception as e:
         out['outcome'] = 'unsupported'
-        out['msg'] = 'engine exception: ' + ''.join(traceback.format_exception_only(type(e), e))[:300] + ' | ' + traceback.format_exc()[-700:]
+        out['msg'] = 'engine exception: ' + ''.join(traceback.format_exception_only(type(e), e))[:300] + ' | ' + traceback.format_exc()[-500:] + ' | MIR stack: ' + ' < '.join(ex.errstack)
     out['decisions'] = list(ex.decisions)
     out['new'] = ex.new
     out['steps'] = ex.steps
